@@ -737,6 +737,34 @@ fn run_direct(op: &str, a: &Args) -> Option<Args> {
             if op == "c14.ipc_calls" { vec![calls, g(fin)] }
             else { vec![tags, g(if status == 1 { 1 } else if fin == 1 { 0 } else { 2 })] }
         }
+        "c14.json_calls" | "c14.json_rows" => {
+            // per-call observables of arrow_json::reader::Decoder (empty schema: every row must be an
+            // object, no column is decoded): bytes consumed, len(), has_partial_record(); flushed rows
+            let h = to_i64s(&a[0]);
+            let input = to_u8s(&a[1]);
+            let bounds: Vec<usize> = a[2].iter().map(|b| usize::try_from(b).unwrap()).collect();
+            let mut dec = arrow_json::ReaderBuilder::new(Arc::new(Schema::empty())).with_batch_size(h[0] as usize).with_flatten(h[1] != 0).build_decoder().unwrap();
+            let mut calls: Vec<BigInt> = vec![];
+            let mut fls: Vec<BigInt> = vec![];
+            let mut status = 0i64;
+            'outer: for c in cut(&input, &bounds) {
+                let mut rest = c;
+                loop {
+                    match dec.decode(rest) {
+                        Err(_) => { status = 1; break 'outer; }
+                        Ok(n) => {
+                            calls.extend([BigInt::from(n), BigInt::from(dec.len()), BigInt::from(dec.has_partial_record() as u8)]);
+                            rest = &rest[n..];
+                            if rest.is_empty() { break; }
+                            match dec.flush() { Ok(Some(b)) => fls.push(b.num_rows().into()), Ok(None) => { status = ST_PROTOCOL; break 'outer; } Err(_) => { status = 2; break 'outer; } }
+                        }
+                    }
+                }
+            }
+            if status == 0 { match dec.flush() { Ok(Some(b)) => fls.push(b.num_rows().into()), Ok(None) => {}, Err(_) => status = 2 } }
+            if op == "c14.json_calls" { vec![calls, fls, g(status)] }
+            else { vec![vec![fls.iter().fold(BigInt::from(0), |x, y| x + y)], g(status)] }
+        }
         "c14.avro_ocf" | "c14.avro_vals" => {
             // OCF file with the single-long record schema: trace of BufRead::consume amounts
             // (= bytes consumed by each HeaderDecoder / BlockDecoder call), decoded values, status
@@ -826,7 +854,7 @@ mod worker {
 }
 
 pub fn run(op: &str, a: &Args) -> Option<Args> {
-    if !matches!(op, "c14.baseline" | "c14.chunk" | "c14.sweep" | "c14.ipc_calls" | "c14.ipc_events" | "c14.avro_ocf" | "c14.avro_vals") { return None; }
+    if !matches!(op, "c14.baseline" | "c14.chunk" | "c14.sweep" | "c14.ipc_calls" | "c14.ipc_events" | "c14.avro_ocf" | "c14.avro_vals" | "c14.json_calls" | "c14.json_rows") { return None; }
     if let Ok(path) = std::env::var("VERIF_C14_WORKER") { return worker::serve(&path, op, a); }
     if std::env::var("VERIF_C14_INPROC").is_ok() { return run_direct(op, a); }
     Some(worker::call(op, a))
@@ -967,6 +995,25 @@ pub fn generate(tier: &str, r: &mut Rng, emit: &mut dyn FnMut(Case)) {
     gen_parquet(tier, r, emit, 4 * scale);
     gen_ipc_model(tier, r, emit, 10 * scale);
     gen_avro_model(tier, r, emit, 40 * scale);
+    gen_json_model(tier, r, emit, 40 * scale);
+}
+
+fn gen_json_model(tier: &str, r: &mut Rng, emit: &mut dyn FnMut(Case), count: usize) {
+    for i in 0..count {
+        let flatten = r.chance(1, 3);
+        let cfg = 1 | if flatten { JS_FLATTEN } else { 0 };
+        let (bytes, tag) = json_doc_x(r, cfg, true);
+        let bs = *r.pick(&[1usize, 2, 3, 1024]);
+        let n = bytes.len();
+        let mut put = |b: Vec<usize>, what: &str| {
+            let args = vec![vec![BigInt::from(bs), BigInt::from(flatten as u8)], gbytes(&bytes), b.iter().map(|x| BigInt::from(*x)).collect()];
+            emit(Case::new("c14.json_calls", args.clone(), &["c14.json_calls"], format!("json calls {what} {tag} bs{bs}")));
+            emit(Case::new("c14.json_rows", args, &["c14.json_rows", "c14.json_rows.spec"], format!("json rows {what} {tag} bs{bs}")));
+        };
+        put(vec![], "one");
+        for _ in 0..(if tier == "thorough" { 30 } else { 12 }) { put(rand_bounds(r, n), "rand"); }
+        if i % 4 == 0 || (tier == "thorough" && i % 2 == 0) { for p in 0..=n { put(vec![p], "split"); } }
+    }
 }
 
 // ---- cases tying the Coq framing models to the code
@@ -995,6 +1042,16 @@ fn gen_ipc_model(tier: &str, r: &mut Rng, emit: &mut dyn FnMut(Case), count: usi
                 if let Some(f0) = f.first() { let skip = 8 + f0.meta.len() + f0.body.len(); if skip <= bytes.len() { bytes.drain(..skip); } }
             }
             _ => {}
+        }
+        if kind == 5 {
+            // truncate at a framing boundary: inside the continuation marker / size prefix, inside or
+            // right after the metadata, inside the body (finish() must report all of them)
+            let f = walk_ipc(&bytes);
+            let mut cuts = vec![];
+            let mut pos = 0usize;
+            for fr in &f { for d in [1usize, 2, 3, 4, 5, 7, 8, 9] { cuts.push(pos + d); } pos += 8 + fr.meta.len(); cuts.push(pos - 1); cuts.push(pos); cuts.push(pos + 1); pos += fr.body.len(); cuts.push(pos); }
+            for d in [1usize, 2, 3, 4, 5, 7] { cuts.push(pos + d); }
+            let k = (*r.pick(&cuts)).min(bytes.len()); bytes.truncate(k);
         }
         let frames = walk_ipc(&bytes);
         let oracle: Vec<BigInt> = frames.iter().flat_map(|f| [BigInt::from(f.valid as u8), BigInt::from(f.body_len.max(0)), BigInt::from(f.kind), BigInt::from(f.rows)]).collect();
@@ -1250,7 +1307,9 @@ fn json_object(r: &mut Rng, fields: &Fields, depth: usize) -> String {
     if r.chance(1, 4) { parts.reverse(); }
     format!("{{{}{}}}", parts.join(","), ws(r))
 }
-fn json_doc(r: &mut Rng, cfg: i64) -> (Vec<u8>, String) {
+fn json_doc(r: &mut Rng, cfg: i64) -> (Vec<u8>, String) { json_doc_x(r, cfg, false) }
+/// `lexical_only`: only invalid variants that the tape decoder itself rejects (no raw invalid UTF-8, no bare scalar rows)
+fn json_doc_x(r: &mut Rng, cfg: i64, lexical_only: bool) -> (Vec<u8>, String) {
     let schema = json_schema(cfg);
     let rows = r.below(7);
     let mut s = String::new();
@@ -1266,7 +1325,8 @@ fn json_doc(r: &mut Rng, cfg: i64) -> (Vec<u8>, String) {
     }
     if open { s.push(']'); }
     let mut bytes = s.into_bytes();
-    let inv = r.below(14);
+    let mut inv = r.below(14);
+    if lexical_only && (inv == 4 || inv == 8) { inv = 13; }
     match inv {
         0 => bytes.extend_from_slice(b"{\"a\": nul}"),
         1 => bytes.extend_from_slice(b"{\"b\": \"\\x\"}"),
